@@ -37,6 +37,7 @@ type raceProg struct {
 
 type raceHit struct {
 	Prog    string   `json:"prog"`
+	TwoInst bool     `json:"two_instances"`
 	Funcs   string   `json:"funcs"`
 	Setup   []string `json:"setup"`
 	Threads []string `json:"threads"`
@@ -45,12 +46,13 @@ type raceHit struct {
 }
 
 type raceOut struct {
-	Programs   int       `json:"programs"`
-	Executions int       `json:"executions"`
-	MinBound   int       `json:"min_bound"`
-	TimedOut   int       `json:"timed_out"`
-	Hits       []raceHit `json:"hits"`
-	HarnessErr string    `json:"harness_err"`
+	Programs     int       `json:"programs"`
+	InstPrograms int       `json:"two_instance_programs"`
+	Executions   int       `json:"executions"`
+	MinBound     int       `json:"min_bound"`
+	TimedOut     int       `json:"timed_out"`
+	Hits         []raceHit `json:"hits"`
+	HarnessErr   string    `json:"harness_err"`
 }
 
 func racePrograms(tier string) ([]raceProg, int) {
@@ -127,6 +129,70 @@ func (p raceProg) tmpl() string {
 	return s
 }
 
+// raceItem is one program of the race pass: what to print about it and how to
+// execute it once under a choice prefix.
+type raceItem struct {
+	tmpl           string
+	twoInst        bool
+	setup, threads []string
+	bound          int
+	exec           func(prefix []int8) (verifrt.Result, []verifrt.PointRec)
+}
+
+func (p raceProg) item(bound int) raceItem {
+	su, ts := p.strings()
+
+	return raceItem{tmpl: p.tmpl(), setup: su, threads: ts, bound: bound, exec: func(prefix []int8) (verifrt.Result, []verifrt.PointRec) {
+		idm := newIdm()
+		for _, c := range p.Setup {
+			execCall(idm, c)
+		}
+
+		bodies := make([]func(), len(p.Threads))
+
+		for t := range p.Threads {
+			t := t
+			bodies[t] = func() {
+				for _, c := range p.Threads[t] {
+					verifrt.CallPoint()
+					execCall(idm, c)
+				}
+			}
+		}
+
+		r := verifrt.Run(prefix, bodies)
+
+		return r, verifrt.Points()
+	}}
+}
+
+// raceItems: the programs on one identity manager, then the two-instance
+// programs of the instances part (inst.go). In those the threads share no
+// object and take no common lock, so whatever the schedule every access of one
+// thread is unordered with every access of the other: any state the two
+// instances, or an instance and a constructor, have in common and do not guard
+// is reported.
+func raceItems(tier string) (items []raceItem, nInst int) {
+	progs, bound := racePrograms(tier)
+	for _, p := range progs {
+		items = append(items, p.item(bound))
+	}
+
+	for _, p := range instPrograms(tier, true) {
+		p := p
+		su, ts := p.strings()
+		nInst++
+
+		items = append(items, raceItem{tmpl: p.tmpl(), twoInst: true, setup: su, threads: ts, bound: bound, exec: func(prefix []int8) (verifrt.Result, []verifrt.PointRec) {
+			r := p.exec(prefix)
+
+			return r.res, r.pts
+		}})
+	}
+
+	return items, nInst
+}
+
 // racePass is the body of the -race child process.
 func racePass(tier, outPath string) int {
 	out := raceOut{MinBound: 1 << 30}
@@ -148,13 +214,14 @@ func racePass(tier, outPath string) int {
 		deadline = time.Unix(d, 0)
 	}
 
-	progs, bound := racePrograms(tier)
+	items, nInst := raceItems(tier)
+	out.InstPrograms = nInst
 	raceSize := int64(0)
 	seen := map[string]bool{}
 
 	verifrt.SetMode(verifrt.ModeSched)
 
-	for _, p := range progs {
+	for _, p := range items {
 		if out.HarnessErr != "" {
 			break
 		}
@@ -168,25 +235,7 @@ func racePass(tier, outPath string) int {
 		p := p
 
 		run := func(prefix []int8) sched.Exec {
-			idm := newIdm()
-			for _, c := range p.Setup {
-				execCall(idm, c)
-			}
-
-			bodies := make([]func(), len(p.Threads))
-
-			for t := range p.Threads {
-				t := t
-				bodies[t] = func() {
-					for _, c := range p.Threads[t] {
-						verifrt.CallPoint()
-						execCall(idm, c)
-					}
-				}
-			}
-
-			r := verifrt.Run(prefix, bodies)
-			pts := verifrt.Points()
+			r, pts := p.exec(prefix)
 			out.Executions++
 
 			if fi, err := os.Stat(raceLog); err == nil && fi.Size() > raceSize {
@@ -199,23 +248,24 @@ func racePass(tier, outPath string) int {
 				raceSize = fi.Size()
 
 				for _, fns := range concfs.ParseRace(string(buf)) {
-					k := p.tmpl() + "#" + fns
+					k := p.tmpl + "#" + fns
 					if seen[k] {
 						continue
 					}
 
 					seen[k] = true
-					su, ts := p.strings()
-					out.Hits = append(out.Hits, raceHit{Prog: p.tmpl(), Funcs: fns, Setup: su, Threads: ts, Choices: sched.Choices(pts), Report: string(buf)})
+					out.Hits = append(out.Hits, raceHit{Prog: p.tmpl, TwoInst: p.twoInst, Funcs: fns, Setup: p.setup, Threads: p.threads, Choices: sched.Choices(pts), Report: string(buf)})
 				}
 			}
 
 			return sched.Exec{Res: r, Points: pts}
 		}
 
+		bound := p.bound
+
 		st := sched.Explore(run, bound, deadline, 0)
 		if st.BadReplay {
-			out.HarnessErr = "replay divergence in " + p.tmpl()
+			out.HarnessErr = "replay divergence in " + p.tmpl
 		}
 
 		if st.TimedOut {
@@ -297,8 +347,13 @@ func runRace(tier string, rep *kf.Reporter, deadline time.Time) (partResult, err
 	}
 
 	for _, h := range out.Hits {
-		rep.Report(kf.Sig{"part": "race", "kind": "race", "funcs": h.Funcs},
-			map[string]any{"setup": h.Setup, "threads": h.Threads, "choices": h.Choices, "report": h.Report,
+		sig := kf.Sig{"part": "race", "kind": "race", "funcs": h.Funcs}
+		if h.TwoInst {
+			sig["between"] = "threads that use different identity managers"
+		}
+
+		rep.Report(sig,
+			map[string]any{"program": h.Prog, "setup": h.Setup, "threads": h.Threads, "choices": h.Choices, "report": h.Report,
 				"how": "VERIF_RACE=1 build of cmd/c15; the schedule is the choice list of sched.Explore"})
 	}
 
@@ -313,12 +368,13 @@ func runRace(tier string, rep *kf.Reporter, deadline time.Time) (partResult, err
 	res.Transitions = out.Executions
 	res.Evaluations = out.Executions
 	res.Classes["race:programs"] = out.Programs
-	res.Bound = fmt.Sprintf("%d programs under the race detector (min preemption bound completed %d), %d timed out", out.Programs, out.MinBound, out.TimedOut)
+	res.Bound = fmt.Sprintf("%d programs under the race detector, %d of them two-thread programs over two identity managers (min preemption bound completed %d), %d timed out", out.Programs, out.InstPrograms, out.MinBound, out.TimedOut)
 	res.Extra["race_programs"] = out.Programs
+	res.Extra["race_two_instance_programs"] = out.InstPrograms
 	res.Extra["race_schedules"] = out.Executions
 	res.Extra["race_reports"] = len(out.Hits)
 	res.Assumptions = []string{
-		"race part: the pair (thorough: also triple) programs of the concurrent part are explored again in a -race build; verifrt's hand-offs are invisible to the detector, the real mutexes under the shim provide the program's own happens-before edges",
+		"race part: the pair (thorough: also triple) programs of the concurrent part and the two-instance programs of the instances part are explored again in a -race build; verifrt's hand-offs are invisible to the detector, the real mutexes under the shim provide the program's own happens-before edges",
 	}
 	res.Summary = fmt.Sprintf("race: programs=%d schedules=%d reports=%d timed-out=%d", out.Programs, out.Executions, len(out.Hits), out.TimedOut)
 
